@@ -38,6 +38,20 @@ func key32(label string) []byte {
 
 // mkVal builds a value of the given kind carrying label; render gives its snapshot.
 func mkVal(kind int, label string) statecache.Value {
+	v := mkVal0(kind, label)
+	// trie nodes carry a version mark that differs from their origin (as nodes visited by a pruning pass do):
+	// a copy that loses the mark is a different value
+	if n, ok := v.(interface {
+		SetOrigin(util.Sequence)
+		SetVersion(util.Sequence)
+	}); ok {
+		n.SetOrigin(5)
+		n.SetVersion(9)
+	}
+	return v
+}
+
+func mkVal0(kind int, label string) statecache.Value {
 	sv := func() *util.SecureSerializableValue { return &util.SecureSerializableValue{Buffer: []byte(label)} }
 	switch kind {
 	case 0:
